@@ -51,6 +51,7 @@ def run_one(tape, opts):
     final = TExt(world, "final")
     result = ExtendedToStreamDecorator(CopyStreamResult([tap, StreamToExtendedDecorator(final)]))
     rep = pl.Reporter(result, hist)
+    rep.one_shot_details = tape.chance("config", 1, 3, "one-shot-detail-payloads")
     model = pl.TagModel()
     tests = []
     override = None
